@@ -12,7 +12,7 @@ RULE = ("each logical call (engine, sequences[, query], k, mode) is executed for
         "coordinates; every invalid-argument class must raise on every engine; non-trivial = expected set non-empty")
 ASSUMPTIONS = ["two-collection calls vary one container at a time (star) plus both-permuted, not the full 7x7 product",
                "an invalid argument is 'rejected' when any exception is raised"]
-REQUIRED_CLASSES = {"all": ["series-permuted-labels", "series-shifted-labels", "coo-output", "ndarray-output", "invalid-argument", "non-square-matrix", "non-integer-distances", "asymmetric-result", "more-queries-than-references", "radius-3-and-4-in-every-container", "invalid-argument-with-a-lone-sequence"]}
+REQUIRED_CLASSES = {"all": ["series-permuted-labels", "series-shifted-labels", "coo-output", "ndarray-output", "invalid-argument", "non-square-matrix", "non-integer-distances", "asymmetric-result", "more-queries-than-references", "radius-3-and-4-in-every-container", "invalid-argument-with-a-lone-sequence", "empty-query-collection"]}
 MIN_OUTCOMES = 10
 
 CONTAINERS = ("list", "tuple", "ndarray", "series", "series_shift", "series_perm", "series_str", "ndarray_object")
@@ -199,6 +199,7 @@ def spaces(tier):
         for ref in E.lists(U1, 3, minlen=2):
             for query in E.lists(U1, 5 if not q else 4, minlen=len(ref) + 1):
                 yield ("wide", ref, query)
+            yield ("wide", ref, ())          # an empty batch of queries is a legal query collection: matrices of shape (len(ref), 0)
 
     def gen_invalid():
         for name, _ in INVALID:
@@ -287,12 +288,13 @@ def check_case(case, acc):
                             _one_two(acc, eng, ref, query, k, mode, out, cr, cq, expected)
     elif kind == "wide":
         _, ref, query = case
-        acc.cls("more-queries-than-references")
+        acc.cls("more-queries-than-references" if query else "empty-query-collection")
         for k in (1, 2):
             expected = expected_for(ref, k, "lev", query)
             for eng in TWO_ENG:
-                for out in ("coo_matrix", "ndarray"):
-                    _one_two(acc, eng, ref, query, k, "lev", out, "list", "list", expected)
+                for out in ("coo_matrix", "ndarray") + (() if query else ("triplets",)):
+                    for cq in (("list",) if query else ("list", "tuple", "ndarray", "series")):
+                        _one_two(acc, eng, ref, query, k, "lev", out, "list", cq, expected)
     elif kind == "two1":
         _, eng, ref, query, k, mode, out, cr, cq = case
         _one_two(acc, eng, ref, query, k, mode, out, cr, cq, expected_for(ref, k, mode, query))
